@@ -253,6 +253,16 @@ def check_day(ctx, day, walk, rng, heavy, mq_all):
         a_, b_ = dt(t, tenor_), dt_bump(t, tenor_)
         if a_ != b_:
             ctx.fail('dt_with_bump', 'dt(%s, %r) = %s but dt_bump gives %s' % (t, tenor_, a_, b_), case=dict(term, tenor=str(tenor_)))
+    # the start as a caller may hold it: a date, a pandas Timestamp, a numpy datetime64, ISO text - the same instant, the same bump
+    import pandas as pd
+    import numpy as np
+    for tenor_ in ('%db' % rng.randint(-30, 30), '%dm' % rng.randint(-14, 14), '-1w', '1y-3m2d', rng.randint(-9, 9)):
+        ref_ = dt_bump(t, tenor_)
+        for fl_, tv_ in (('date', day), ('Timestamp', pd.Timestamp(t)), ('datetime64', np.datetime64(t)), ('text', t.isoformat())):
+            mon['start_flavours'] += 1
+            st_, g_ = ctx.call(dt_bump, tv_, tenor_)
+            if st_ != 'ok' or g_ != ref_:
+                ctx.fail('start_flavours', 'dt_bump(%s as %s, %r) = %s %r but from the datetime it is %s' % (t, fl_, tenor_, st_, g_, ref_), case=dict(term, tenor=str(tenor_), flavour=fl_))
     named = {'spot': 0, 'on': 1, 'o/n': 1, 'tn': 2, 't/n': 2, 'sn': 3, 's/n': 3}
     k = rng.choice(list(named))
     mon['named_tenors'] += 1
